@@ -32,11 +32,14 @@ def scen_layouts(ch, params, out):
     fw = ch.choose("framework", params.get("frameworks", ["base", "pydantic", "sqlmodel", "attrs", "dataclasses"]))
     policy = ch.choose("merge_policy", ["number_10 (nothing merges)", "default (twins merge into one model)"]) if any(twins) else "number_10"
 
+    ODD = "x\u2028y\u2029z\x85w"      # line separators other than \\n: legal in JSON strings, special for str.splitlines()
+
     def own_fields(i):
         j = i
         while twins[j]:
             j -= 1
-        return {f"id{j}": 1, f"p{j}": "x"} if j != i or not twins[i] else {f"id{i}": 1, f"p{i}": "x"}
+        # three own fields: a twin that has a child still shares 3 of 4 keys with its childless twin (merged by the default policy)
+        return {f"id{j}": 1, f"p{j}": ODD if j == 0 else "x", f"q{j}": 1.5}
 
     def build(i):
         o = dict(own_fields(i))
@@ -82,7 +85,11 @@ def scen_layouts(ch, params, out):
             except Exception as e:
                 out.fail("emit_raises", f"[{fw}/{layout}] {type(e).__name__}: {e} ({ctx()})", f"emit_raises:{layout}:{type(e).__name__}")
                 return
-            tree = ast.parse(texts[layout])
+            try:
+                tree = ast.parse(texts[layout])
+            except SyntaxError as e:
+                out.fail("module_syntax_error", f"[{fw}/{layout}] {e} ({ctx()})\n{texts[layout]}", f"module_does_not_load:{layout}")
+                return
             cdefs = emitcheck.class_defs(tree)
             names = [c.name for _, c, _ in cdefs]
             out.check(sorted(names) == sorted(m.name for m in reg.models), "model_not_emitted_exactly_once",
